@@ -12,6 +12,8 @@ pub use crate::net_report::verif_hooks as net_report;
 pub use crate::socket::transports::verif_hooks as transports;
 /// Per-remote path state: synthetic `RemotePathState`, pruning, resolve requests.
 pub use crate::socket::remote_map::path_state_verif_hooks as path_state;
+/// Per-remote actor state: resolve requests and address lookup plumbing without a run loop.
+pub use crate::socket::remote_map::remote_state_verif_hooks as remote_state;
 /// Address lookup registry: crate-private `publish`, last published data, lock probes.
 pub use crate::address_lookup::verif_hooks as address_lookup;
 /// Named pause points (no-ops unless the current thread installed a callback).
